@@ -51,6 +51,16 @@ CHECKS = {
         note='declared() readers are written from the specifications (DESIGN appendix B); structural equality '
              'compares asn1crypto values by DER.',
         design='3 (C03)'),
+    'C05': dict(
+        technique='mutation-based fuzzing with a canonical-form oracle: accepted seeds, grammar variants and seeded '
+                  'mutants per class; parse -> compose -> parse_exact_size -> structural equality -> compose again '
+                  '(idempotence); deviations bucketed by root-cause family',
+        text='~400 (thorough 10000) mutants per concrete class plus all seeds; only accepted inputs are cases and the '
+             'non-trivial ones are those whose canonical re-serialisation differs from the input. For byte-mutated '
+             'texts of the HTTP/TXT families the findings are folded into one family per clause (lenient third-party '
+             'building blocks), precise keys are kept for seeds, grammar variants and all binary classes. Sampling.',
+        note='Equality as in C01; header-field classes are re-parsed with the CRLF item terminator appended.',
+        design='3 (C05)'),
     'C01': dict(
         technique='Hypothesis spec-first generation of constructor arguments per class (166 classes of the binary '
                   'families) + objects parsed from the unit-test corpus (all classes); round-trip oracle '
